@@ -318,8 +318,9 @@ class TextModule:
         if r.random() < 0.6:
             room = r.randint(1, 4)
             f, n = self.scalar(8, 4)
-            ptr = F(self.nm("ptr"), "uint", start=pos, size=1, control=(pos + 1, pos + 1 + room))
-            pos += 1
+            psz = 1 if pos + 16 < 250 else 2
+            ptr = F(self.nm("ptr"), "uint", start=pos, size=psz, control=(pos + psz, pos + psz + room))
+            pos += psz
             f.start, f.attr = ("field", ptr.name), self.attr()
             fs.append(f)
             (late if r.random() < 0.7 else fs).append(ptr)
@@ -548,6 +549,13 @@ class TextModule:
 
     def _encode_bits(self, f, v):
         n = f.nbits()
+        # the instance dictionary is the reference for the field values: it must describe the bytes
+        if f.kind in ("uint", "enum"):
+            assert 0 <= v < 2**n, (f.name, f.kind, n, v)
+        elif f.kind == "int":
+            assert -(2**(n - 1)) <= v < 2**(n - 1), (f.name, n, v)
+        elif f.kind == "bcd":
+            assert 0 <= v < 10**(n // 4), (f.name, n, v)
         if f.kind == "flag":
             return 1 if v else 0
         if f.kind == "bcd":
@@ -728,18 +736,28 @@ def coq_chars(s):
     return "[" + ";".join("%d" % b for b in s) + "]"
 
 
+def coq_text(s):
+    """A text as `codes "<literal>"` when it is plain ASCII (Coq string literals may contain
+    newlines and tabs), else as a list of codes."""
+    if isinstance(s, str):
+        s = s.encode("latin-1")
+    if all((32 <= b < 127) or b in (9, 10) for b in s):
+        return '(codes "%s")' % s.decode("ascii").replace('"', '""')
+    return coq_chars(s)
+
+
 def coq_ity(t):
     return "(mk_ity %s W%d)" % ("true" if t[0] else "false", t[1])
 
 
 def coq_finfo(fi):
     a = {None: "ANone", "Skip": "ASkip", "Emit": "AEmit"}[fi["attr"]]
-    return "(mk_finfo %s %s %s %s %s)" % (coq_chars(fi["name"]), "true" if fi["present"] else "false", a,
+    return "(mk_finfo %s %s %s %s %s)" % (coq_text(fi["name"]), "true" if fi["present"] else "false", a,
                                            "true" if fi["ro"] else "false", "true" if fi["anon"] else "false")
 
 
 def coq_names(names):
-    return "[" + ";".join("(%s,%s)" % (coq_chars(n), zlit(v)) for n, v in names) + "]"
+    return "[" + ";".join("(%s,%s)" % (coq_text(n), zlit(v)) for n, v in names) + "]"
 
 
 def coq_tval(node):
@@ -783,7 +801,7 @@ def leaves(node, path=()):
 
 
 def coq_path(path):
-    return "[" + ";".join("PField %s" % coq_chars(x) if k == "f" else "PIndex %d" % x for k, x in path) + "]"
+    return "[" + ";".join("PField %s" % coq_text(x) if k == "f" else "PIndex %d" % x for k, x in path) + "]"
 
 
 def cpp_path(path):
